@@ -41,7 +41,7 @@ PLAN = {
     'C15': {'gated': (['multi', 'multim'], 80, 750), 'free': (['multi'], 32, 600), 'model': ['MC_multi']},
     'C16': {'gated': (['basic', 'handle', 'cancel', 'batch'], 64, 750), 'free': (['basic', 'handle'], 96, 2400), 'model': ['MC_core']},
     'C17': {'gated': (['basic', 'multi', 'cancel', 'ctl', 'reject', 'multim'], 84, 900), 'free': (['basic', 'multi'], 64, 1200), 'model': []},
-    'C18': {'gated': (['pool', 'ctl', ('tune', 2), 'stop2'], 70, 800), 'free': (['pool'], 64, 1200), 'model': []},
+    'C18': {'gated': (['pool', 'ctl', ('tune', 2), 'stop2', ('life', 2)], 84, 900), 'free': (['pool'], 64, 1200), 'model': []},
 }
 
 
